@@ -6,7 +6,7 @@ import TracklibVerif.Gen.ObsTime
 * `tie_isLeapYear`  — `ObsTime.isLeapYear(year)` = `ObsTime.isLeap` on every year ≥ 0 (Python's `%` is `Int.fmod`).
 * `tie_toAbsTime`   — `ObsTime.toAbsTime` (two `for` loops over `range`, table lookup `__day_per_month[m - 1]`, the integer
   accumulator `seconds`, the final float operation) = `ObsTimeG.toAbsG`, on every stamp with `month ≤ 13`;
-  `tie_toAbsTime_index`: for `month ≥ 14` the code raises `IndexError` (the model is total there).
+  `tie_toAbsTime_index`: for `month ≥ 14` the code raises `IndexError`; `tie_toAbsTime_total`: both, against `ObsTimeG.toAbsGE`.
 * `tie_readUnixTime_modelFuel`, `tie_readUnixTime` — `ObsTime.readUnixTime` on a float (the `while True` year loop with
   `break`, the `for i in range(12)` month loop with `break`, the five truncations) = `ObsTimeG.readUnixG`: with the model's
   own fuel the two agree including "out of fuel", and for EVERY larger fuel the translated function returns the model's stamp.
@@ -168,6 +168,18 @@ theorem tie_toAbsTime_index (t : ObsTime.StampZ) (hm : 14 ≤ t.month) :
     by_cases hl : ObsTime.isLeap y.toNat = true
     · simp [hl]
     · simp [hl]
+
+/-- **`ObsTime.toAbsTime`, all stamps**: the translation of the CURRENT source returns the model's value where the model has one and
+raises `IndexError` exactly where the model's `toAbsGE` is `none` (month ≥ 14) -/
+theorem tie_toAbsTime_total (t : ObsTime.StampZ) (h1000 : (1000.0 : α) = ((1000 : Int) : α)) :
+    Gen.ObsTime.ObsTime_toAbsTime (α := α) (t.year : Int) (t.month : Int) t.day t.hour t.min t.sec t.ms
+      = match ObsTime.toAbsGE t with
+        | some v => .ok v
+        | none => .error .index := by
+  unfold ObsTime.toAbsGE
+  by_cases hm : t.month ≤ 13
+  · rw [if_pos hm]; exact tie_toAbsTime t hm h1000
+  · rw [if_neg hm]; exact tie_toAbsTime_index t (by omega)
 
 /-- the `while True` year loop of `readUnixTime` against `yearLoopG`: same fuel, same result, "out of fuel" for `none` -/
 theorem yearLoop_tie {ρ : Type} (e : α) (body : Int × Int → Py.M (Py.Ctl (Int × Int) ρ))
